@@ -7,6 +7,7 @@
 From Coq Require Import String Ascii.
 From Coq Require Import List.
 Require Import Base JsonEscape Stats Tables_statslog StatsProofs C19Record C19RecordProofs Lexer C19LexerFinite C19TextRecords Tables_statsrecord C19Schema.
+Require Import Condense C19DocNumbers C19Concurrent C19ConcurrentProofs.
 From Coq Require Import ZArith.
 Local Open Scope N_scope.
 
@@ -630,3 +631,174 @@ Example C19_summary_example :
   total_applied _ _ s = 3%nat /\ lint_counts _ _ s = [(3, 2%nat); (1, 1%nat)] /\ final_config _ _ s = 7 /\
   misspelled _ _ s = [([97; 98], 2%nat); ([99], 1%nat)].
 Proof. vm_compute. repeat split; reflexivity. Qed.
+
+(* ================= phase 4 ================= *)
+
+(* The passes of Document::parse between the lexer and the linters (C02's Model/Condense.v, all nine, in the order of the code)
+   BUILD NO NUMBER: every Number token of Document::new_plain_english(s) has the sign, mantissa, exponent, radix and precision
+   (same_value) of a Number token PlainEnglish::parse(s) made — only the suffix may differ (condense_number_suffixes).
+   For every text and every Unicode table.  Replaces the source-shape flag the `lexer` clause rested on *)
+Theorem C19_document_number_values : forall u s t0 ts, plain_parse u s = Ok t0 -> document_plain u s = Ok ts ->
+  forall t nb, In t ts -> tkind_of t = KNumber nb ->
+  exists t' nb0, In t' t0 /\ tkind_of t' = KNumber nb0 /\ same_value nb nb0.
+Proof. exact document_number_values. Qed.
+Check C19_document_number_values : forall u s t0 ts, plain_parse u s = Ok t0 -> document_plain u s = Ok ts ->
+  forall t nb, In t ts -> tkind_of t = KNumber nb ->
+  exists t' nb0, In t' t0 /\ tkind_of t' = KNumber nb0 /\ same_value nb nb0.
+Print Assumptions C19_document_number_values.
+
+(* the exact form, with totality: the document exists for every text, and each of its Numbers IS a lexer Number (all six members)
+   or a lexer Number with the suffix member set *)
+Theorem C19_document_numbers_suffixed : forall u s, exists t0 ts, plain_parse u s = Ok t0 /\ document_plain u s = Ok ts /\
+  Forall (numbers_in (suffixed (lexed t0))) ts.
+Proof. exact document_numbers_from_lexer. Qed.
+Check C19_document_numbers_suffixed : forall u s, exists t0 ts, plain_parse u s = Ok t0 /\ document_plain u s = Ok ts /\
+  Forall (numbers_in (suffixed (lexed t0))) ts.
+Print Assumptions C19_document_numbers_suffixed.
+
+(* hence every Number the linters (and RecordKind::from_lint) can see is finite — decimal and hexadecimal, no Unicode law *)
+Theorem C19_document_plain_finite : forall u s ts, document_plain u s = Ok ts -> Forall token_finite ts.
+Proof. exact document_plain_finite. Qed.
+Check C19_document_plain_finite : forall u s ts, document_plain u s = Ok ts -> Forall token_finite ts.
+Print Assumptions C19_document_plain_finite.
+
+(* a record whose Number values are those of Number tokens of the DOCUMENT of some text is a record made from text *)
+Theorem C19_made_from_document_text : forall u r, made_from_document u r -> made_from_text u r.
+Proof. exact made_from_document_text. Qed.
+Check C19_made_from_document_text : forall u r, made_from_document u r -> made_from_text u r.
+Print Assumptions C19_made_from_document_text.
+
+(* THE PROPERTY for records made from the document (doc_record r = value of the Rust types whose Number values are values of Number
+   tokens of Document::new_plain_english(s) for some text s), under float_rt alone *)
+Theorem C19_doc_log_roundtrip : forall (u : uni) (print_f64 : lexval -> bytes) (parse_f64 : bytes -> option lexval),
+  float_rt lexval lexval_finite print_f64 parse_f64 ->
+  forall rs, Forall (doc_record u print_f64 parse_f64) rs ->
+  read (record lexval) (de_record lexval lexval_finite print_f64 parse_f64) (write (record lexval) (ser_record lexval lexval_finite print_f64 parse_f64) rs) = Some rs.
+Proof. exact doc_log_roundtrip. Qed.
+Check C19_doc_log_roundtrip : forall (u : uni) (print_f64 : lexval -> bytes) (parse_f64 : bytes -> option lexval),
+  float_rt lexval lexval_finite print_f64 parse_f64 ->
+  forall rs, Forall (doc_record u print_f64 parse_f64) rs ->
+  read (record lexval) (de_record lexval lexval_finite print_f64 parse_f64) (write (record lexval) (ser_record lexval lexval_finite print_f64 parse_f64) rs) = Some rs.
+Print Assumptions C19_doc_log_roundtrip.
+
+(* a second batch after a first *)
+Theorem C19_doc_log_append : forall (u : uni) (print_f64 : lexval -> bytes) (parse_f64 : bytes -> option lexval),
+  float_rt lexval lexval_finite print_f64 parse_f64 ->
+  forall a c, Forall (doc_record u print_f64 parse_f64) a -> Forall (doc_record u print_f64 parse_f64) c ->
+  read (record lexval) (de_record lexval lexval_finite print_f64 parse_f64) (write (record lexval) (ser_record lexval lexval_finite print_f64 parse_f64) a ++ write (record lexval) (ser_record lexval lexval_finite print_f64 parse_f64) c) = Some (a ++ c).
+Proof. exact doc_log_append. Qed.
+Check C19_doc_log_append : forall (u : uni) (print_f64 : lexval -> bytes) (parse_f64 : bytes -> option lexval),
+  float_rt lexval lexval_finite print_f64 parse_f64 ->
+  forall a c, Forall (doc_record u print_f64 parse_f64) a -> Forall (doc_record u print_f64 parse_f64) c ->
+  read (record lexval) (de_record lexval lexval_finite print_f64 parse_f64) (write (record lexval) (ser_record lexval lexval_finite print_f64 parse_f64) a ++ write (record lexval) (ser_record lexval lexval_finite print_f64 parse_f64) c) = Some (a ++ c).
+Print Assumptions C19_doc_log_append.
+
+(* append after append *)
+Theorem C19_doc_log_sessions : forall (u : uni) (print_f64 : lexval -> bytes) (parse_f64 : bytes -> option lexval),
+  float_rt lexval lexval_finite print_f64 parse_f64 ->
+  forall file old ss, terminated file -> read (record lexval) (de_record lexval lexval_finite print_f64 parse_f64) file = Some old ->
+  Forall (Forall (doc_record u print_f64 parse_f64)) ss ->
+  read (record lexval) (de_record lexval lexval_finite print_f64 parse_f64) (sessions (record lexval) (ser_record lexval lexval_finite print_f64 parse_f64) file ss) = Some (old ++ concat ss).
+Proof. exact doc_log_sessions. Qed.
+Check C19_doc_log_sessions : forall (u : uni) (print_f64 : lexval -> bytes) (parse_f64 : bytes -> option lexval),
+  float_rt lexval lexval_finite print_f64 parse_f64 ->
+  forall file old ss, terminated file -> read (record lexval) (de_record lexval lexval_finite print_f64 parse_f64) file = Some old ->
+  Forall (Forall (doc_record u print_f64 parse_f64)) ss ->
+  read (record lexval) (de_record lexval lexval_finite print_f64 parse_f64) (sessions (record lexval) (ser_record lexval lexval_finite print_f64 parse_f64) file ss) = Some (old ++ concat ss).
+Print Assumptions C19_doc_log_sessions.
+
+(* THE APPEND CLAUSE ACROSS PROCESSES (Model/C19Concurrent.v: std's BufWriter::write_all / flush_buf / flush, fragments in, one
+   write(2) per chunk out).  BufWriter + flush is the identity on the byte stream, whatever the fragments and the capacity
+   (was a trusted-base item) *)
+Theorem C19_bufwriter_is_identity : forall cap frags, concat (bufwriter cap frags) = concat frags.
+Proof. exact bufwriter_concat. Qed.
+Check C19_bufwriter_is_identity : forall cap frags, concat (bufwriter cap frags) = concat frags.
+Print Assumptions C19_bufwriter_is_identity.
+
+(* a session of at most `cap` bytes reaches the file in ONE write(2) (none if it is empty) *)
+Theorem C19_bufwriter_single_write : forall cap frags, (0 < cap)%nat -> (length (concat frags) <= cap)%nat ->
+  bufwriter cap frags = chunk_of (concat frags).
+Proof. exact bufwriter_single. Qed.
+Check C19_bufwriter_single_write : forall cap frags, (0 < cap)%nat -> (length (concat frags) <= cap)%nat ->
+  bufwriter cap frags = chunk_of (concat frags).
+Print Assumptions C19_bufwriter_single_write.
+
+(* GUARANTEED: two processes append the batches a and b at the same time (any fragmentation fa / fb of their bytes, any
+   interleaving m of their write(2) calls): if each batch is at most `cap` (= 8192) bytes the log reads back as the old records,
+   then one batch, then the other *)
+Theorem C19_concurrent_small_batches : forall (F : Type) (finite : F -> Prop) (print_f64 : F -> bytes) (parse_f64 : bytes -> option F),
+  float_rt F finite print_f64 parse_f64 ->
+  forall cap file old a b fa fb m,
+  (0 < cap)%nat -> terminated file -> read (record F) (de_record F finite print_f64 parse_f64) file = Some old ->
+  Forall (good F finite print_f64 parse_f64) a -> Forall (good F finite print_f64 parse_f64) b ->
+  concat fa = write (record F) (ser_record F finite print_f64 parse_f64) a ->
+  concat fb = write (record F) (ser_record F finite print_f64 parse_f64) b ->
+  (length (write (record F) (ser_record F finite print_f64 parse_f64) a) <= cap)%nat ->
+  (length (write (record F) (ser_record F finite print_f64 parse_f64) b) <= cap)%nat ->
+  Interleave (bufwriter cap fa) (bufwriter cap fb) m ->
+  read (record F) (de_record F finite print_f64 parse_f64) (concurrent_file file m) = Some (old ++ a ++ b) \/
+  read (record F) (de_record F finite print_f64 parse_f64) (concurrent_file file m) = Some (old ++ b ++ a).
+Proof. exact record_concurrent_small. Qed.
+Check C19_concurrent_small_batches : forall (F : Type) (finite : F -> Prop) (print_f64 : F -> bytes) (parse_f64 : bytes -> option F),
+  float_rt F finite print_f64 parse_f64 ->
+  forall cap file old a b fa fb m,
+  (0 < cap)%nat -> terminated file -> read (record F) (de_record F finite print_f64 parse_f64) file = Some old ->
+  Forall (good F finite print_f64 parse_f64) a -> Forall (good F finite print_f64 parse_f64) b ->
+  concat fa = write (record F) (ser_record F finite print_f64 parse_f64) a ->
+  concat fb = write (record F) (ser_record F finite print_f64 parse_f64) b ->
+  (length (write (record F) (ser_record F finite print_f64 parse_f64) a) <= cap)%nat ->
+  (length (write (record F) (ser_record F finite print_f64 parse_f64) b) <= cap)%nat ->
+  Interleave (bufwriter cap fa) (bufwriter cap fb) m ->
+  read (record F) (de_record F finite print_f64 parse_f64) (concurrent_file file m) = Some (old ++ a ++ b) \/
+  read (record F) (de_record F finite print_f64 parse_f64) (concurrent_file file m) = Some (old ++ b ++ a).
+Print Assumptions C19_concurrent_small_batches.
+
+(* REFUTED above the capacity (finding FC19-torn): nine valid lint records (9 018 bytes) against one configuration update: A's
+   BufWriter hands the batch over in two write(2) calls, the first ending 100 bytes into the ninth line; when B's only write(2)
+   falls between them Stats::read rejects the WHOLE log — the record that was there before included — although either order of the
+   two sessions one after the other reads back.  Line atomicity is not given by BufWriter flush boundaries *)
+Theorem C19_concurrent_large_batch_refuted : Forall (good bytes txt_finite (fun t => t) (fun t => Some t)) w_a /\
+  Forall (good bytes txt_finite (fun t => t) (fun t => Some t)) w_b /\
+  concat w_fa = write (record bytes) (ser_record bytes txt_finite (fun t => t) (fun t => Some t)) w_a /\
+  concat w_fb = write (record bytes) (ser_record bytes txt_finite (fun t => t) (fun t => Some t)) w_b /\
+  terminated w_old /\ read (record bytes) (de_record bytes txt_finite (fun t => t) (fun t => Some t)) w_old = Some [ex_cfg] /\
+  (bufwriter_capacity < length (write (record bytes) (ser_record bytes txt_finite (fun t => t) (fun t => Some t)) w_a))%nat /\
+  Interleave (bufwriter bufwriter_capacity w_fa) (bufwriter bufwriter_capacity w_fb) w_m /\
+  read (record bytes) (de_record bytes txt_finite (fun t => t) (fun t => Some t)) (concurrent_file w_old w_m) = None /\
+  read (record bytes) (de_record bytes txt_finite (fun t => t) (fun t => Some t))
+    (w_old ++ write (record bytes) (ser_record bytes txt_finite (fun t => t) (fun t => Some t)) w_a
+           ++ write (record bytes) (ser_record bytes txt_finite (fun t => t) (fun t => Some t)) w_b) = Some ([ex_cfg] ++ w_a ++ w_b).
+Proof. exact concurrent_large_batch_refuted. Qed.
+Check C19_concurrent_large_batch_refuted : Forall (good bytes txt_finite (fun t => t) (fun t => Some t)) w_a /\
+  Forall (good bytes txt_finite (fun t => t) (fun t => Some t)) w_b /\
+  concat w_fa = write (record bytes) (ser_record bytes txt_finite (fun t => t) (fun t => Some t)) w_a /\
+  concat w_fb = write (record bytes) (ser_record bytes txt_finite (fun t => t) (fun t => Some t)) w_b /\
+  terminated w_old /\ read (record bytes) (de_record bytes txt_finite (fun t => t) (fun t => Some t)) w_old = Some [ex_cfg] /\
+  (bufwriter_capacity < length (write (record bytes) (ser_record bytes txt_finite (fun t => t) (fun t => Some t)) w_a))%nat /\
+  Interleave (bufwriter bufwriter_capacity w_fa) (bufwriter bufwriter_capacity w_fb) w_m /\
+  read (record bytes) (de_record bytes txt_finite (fun t => t) (fun t => Some t)) (concurrent_file w_old w_m) = None /\
+  read (record bytes) (de_record bytes txt_finite (fun t => t) (fun t => Some t))
+    (w_old ++ write (record bytes) (ser_record bytes txt_finite (fun t => t) (fun t => Some t)) w_a
+           ++ write (record bytes) (ser_record bytes txt_finite (fun t => t) (fun t => Some t)) w_b) = Some ([ex_cfg] ++ w_a ++ w_b).
+Print Assumptions C19_concurrent_large_batch_refuted.
+
+Example C19_concurrent_small_nonvacuous :
+  let fa := [firstn 100 (drv_ser ex_lint); skipn 100 (drv_ser ex_lint) ++ [10%N]] in
+  let fb := [firstn 10 (drv_ser ex_cfg); skipn 10 (drv_ser ex_cfg) ++ [10%N]] in
+  concat fa = write (record bytes) (ser_record bytes txt_finite (fun t => t) (fun t => Some t)) [ex_lint] /\
+  concat fb = write (record bytes) (ser_record bytes txt_finite (fun t => t) (fun t => Some t)) [ex_cfg] /\
+  (length (write (record bytes) (ser_record bytes txt_finite (fun t => t) (fun t => Some t)) [ex_lint]) <= bufwriter_capacity)%nat /\
+  (length (write (record bytes) (ser_record bytes txt_finite (fun t => t) (fun t => Some t)) [ex_cfg]) <= bufwriter_capacity)%nat /\
+  bufwriter bufwriter_capacity fa = [write (record bytes) (ser_record bytes txt_finite (fun t => t) (fun t => Some t)) [ex_lint]] /\
+  Interleave (bufwriter bufwriter_capacity fa) (bufwriter bufwriter_capacity fb)
+             (interleave_by [false] (bufwriter bufwriter_capacity fa) (bufwriter bufwriter_capacity fb)) /\
+  read (record bytes) (de_record bytes txt_finite (fun t => t) (fun t => Some t))
+    (concurrent_file w_old (interleave_by [false] (bufwriter bufwriter_capacity fa) (bufwriter bufwriter_capacity fb)))
+    = Some ([ex_cfg] ++ [ex_cfg] ++ [ex_lint]).
+Proof. exact concurrent_small_example. Qed.
+Example C19_document_numbers_nonvacuous :
+  made_from_document LexerProofs.ascii_uni ex_doc_record /\
+  document_plain LexerProofs.ascii_uni [48; 120; 49; 70; 32; 50; 110; 100]%N
+  = Ok [mktok (mkspan 0 4) (KNumber (mknumber false 31 0%Z None 16 0)); mktok (mkspan 4 5) (KSpace 1);
+        mktok (mkspan 5 8) (KNumber (mknumber false 2 0%Z (Some Tables_lexer.SufNd) 10 0))].
+Proof. exact (conj made_from_document_example (proj2 document_numbers_example)). Qed.
